@@ -20,6 +20,12 @@ round 4: stored state under re-initialising mutators (`mode_no_leak`, `mode_wf_a
          histories over ALL ordered pairs of mutators, constructor modes / variants and sampled
          triples, prediction correspondence, coverage); raising calls (`ncoherent_with_exceptions`,
          exact lru histories with raising calls through `xhist`).
+round 5: owned Cached objects (`ocoherent_of_wf`, `owner_key_sees_owned_mutator`, `owned_pairs_ok`
+         about the tables of the pairs (owner, owned object) composed in Lean from the two classes'
+         own tables; harness/c01_owned.py: every public mutator of owned data / plots called through
+         the owner — hit/miss vs the composed machine (`onhist`), recomputation oracle); the owner's
+         view of an owned object is derived from the owned class's source, so these mutators also
+         run through the stages of rounds 3/4 as dotted mutators (`rp_x.set_fixed_threshold`).
 """
 import contextlib
 import inspect
@@ -32,6 +38,7 @@ import numpy as np
 from . import common
 from . import c01_generic as G
 from . import c01_mode as MD
+from . import c01_owned as OW
 
 
 def quiet(fn, *a, **k):
@@ -1491,8 +1498,10 @@ def _run(ctx):
                 "(class, query, args, mutator); non-trivial = the query's value differs between "
                 "before and after the mutator on the twin (the mutator matters for it)")
     ctx.proofs()
-    tables = json.load(open(os.path.join(common.LEAN, "Pyunicorn", "Generated",
-                                         "StructC01.json")))["tables"]
+    gen_json = json.load(open(os.path.join(common.LEAN, "Pyunicorn", "Generated", "StructC01.json")))
+    tables = gen_json["tables"]
+    ometa = gen_json.get("owned", {})       # round 5: pairs (owner class, owned component)
+    own_reqs, own_impl, own_meta = [], [], []
     ctx.extra["classes_in_table"] = {c: {"methods": len(t.get("methods", {})),
                                          "mutators": len(t.get("mutators", {}))}
                                      for c, t in tables.items()}
@@ -1624,6 +1633,14 @@ def _run(ctx):
             r_, o_ = call_edges(ctx, cname, spec, mnames, usable, quick)
         edge_reqs += r_
         edge_obs += o_
+        # ---- round 5: mutators called on owned Cached objects (o.data.set_window, o.rp_x.…) ----
+        with _T("owned"):
+            r_, i_, m_, u_ = OW.owned_stage(ctx, cname, spec, tables, ometa, usable, quick, same,
+                                            brief, eval_summary, skip_now)
+        own_reqs += r_
+        own_impl += i_
+        own_meta += m_
+        unexercised += u_
         # ---- hit/miss correspondence: a fresh object per (query, mutator) -------------------
         hm_muts = [(o, f, True) for o, f in spec["mutators"].items()] + \
                   [(o, f, False) for o, (src, f, raising) in invokers.items()
@@ -1712,6 +1729,30 @@ def _run(ctx):
     # ---- round 4: Lean mode tables vs the real objects ------------------------------------
     gen = json.load(open(os.path.join(common.LEAN, "Pyunicorn", "Generated", "StructC01.json")))
     MD.mode_tie(ctx, common, SPECS, gen, traced)
+    # ---- round 5: the composed tables (owner, owned object) vs the real pairs --------------
+    pkeys = sorted(ometa)
+    pans = common.driver(ctx.pid, [f"opair {k.split(':')[0]} {k.split(':')[1]}" for k in pkeys])
+    bad_p = []
+    for note in OW.static_problems(ometa):      # informational: the translator derives the state
+        ctx.count("owned:fields_C01.json-differs-from-derived")
+    for k, a in zip(pkeys, pans):
+        f = a.split(",")
+        if len(f) != 5 or f[2:] != ["1", "1", "1"] or int(f[0]) != len(ometa[k]["owned_methods"]) \
+                or int(f[1]) != len(ometa[k]["owner_mutators"]):
+            off = common.driver(ctx.pid, [f"onoffending {k.split(':')[0]} {k.split(':')[1]}"])[0]
+            bad_p.append(f"{k}: opair={a} (owned methods, owner mutators kept, nwf, apart, sound); "
+                         f"offending (method:pattern:mutator of the composed table) = {off}")
+    ctx.obligation(f"owned objects: every composed table (owner, owned object) built from the two "
+                   f"classes' own tables is well-formed, names apart, abstraction sound ({len(pkeys)} pairs: {', '.join(pkeys)})",
+                   "translator", not bad_p and len(pkeys) > 0, "\n".join(bad_p[:10]))
+    oans = common.driver(ctx.pid, own_reqs)
+    n_own, bad_o = OW.compare(own_reqs, oans, own_impl, own_meta)
+    ctx.obligation(f"correspondence: hit/miss of owner and owned-object queries after EVERY public "
+                   f"mutator of the owned class called on the owned object == the Lean machine on "
+                   f"the composed table ({n_own} calls in {len(own_reqs)} histories)",
+                   "correspondence", not bad_o and n_own > 0, "\n".join(bad_o[:10]))
+    ctx.extra["owned_pairs"] = pkeys
+    ctx.extra["owned_hit_miss_calls"] = n_own
     # ---- nested model: call edges and the bounded lru cache -------------------------------
     ans = common.driver(ctx.pid, edge_reqs)
     bad_e = []
